@@ -38,7 +38,7 @@ def one(bid):
 def main():
     ids = [a for a in sys.argv[1:] if not a.startswith("--")] or sorted(os.listdir(os.path.join(VERIF, "benign")))
     ids = [i for i in ids if os.path.exists(os.path.join(VERIF, "benign", i, "patch.diff"))]
-    with ProcessPoolExecutor(max_workers=12) as ex:
+    with ProcessPoolExecutor(max_workers=15) as ex:
         res = list(ex.map(one, ids))
     status = {}
     silent = alarm = undecided = noapply = 0
